@@ -55,6 +55,7 @@ def gen_case(seed):
     # the flags they had then; that is not "reading stored metadata" and the statement is not applied to it, see DESIGN 9.7)
     inproc = evo in ("edited-global", "removed") and not cache and rng.random() < 0.75
     return {"seed": seed, "kind": "evolution", "cluster": cluster, "module": mod, "cache": cache, "evolution": evo, "inproc": inproc,
+            "inproc_glitch": rng.random() < 0.5, "dotted_global": rng.random() < 0.4,
             "caller_version": rng.choice(["p1", "1:2", "a#b", "7"]), "callee_explicit": rng.random() < 0.4, "callee_ver_base": rng.choice(["c", "c", "1::", "a:b#", "x.link"]),
             "other_cluster": "oc" + gen_ident(rng), "nested": rng.random() < 0.4,
             # the callee is not called by name but handed over as an argument to a third (pinned) memento function: the
@@ -96,6 +97,17 @@ def names_program(c):
     return "import twosigma.memento as m\n\n%s\ndef %s(x):\n    __vtrace__(%r, x)\n    return [\"r\", x]\n" % (d, c["fn"], c["fn"])
 
 
+def cfg_module(c):
+    return c["module"][:-1] + [c["module"][-1] + "_cfg"]
+
+
+def write_program(root, c, edition):
+    write_module(root, c["module"], evo_program(c, edition))
+    if c.get("dotted_global"):
+        ev = c["evolution"] if edition == 2 else "unchanged"
+        write_module(root, cfg_module(c), "GV = %d\n" % (2 if ev == "edited-global" else 1))
+
+
 def evo_program(c, edition):
     cl = c["cluster"]
     ev = c["evolution"] if edition == 2 else "unchanged"
@@ -106,11 +118,16 @@ def evo_program(c, edition):
     if c["callee_explicit"]:
         callee_ver = c.get("callee_ver_base", "c") + ("2" if ev in ("edited", "edited-global") else "1")
     lines = ["import twosigma.memento as m", "", "GV = %d" % gval, ""]
+    gref = "GV"
+    if c.get("dotted_global"):
+        # the variable lives in a module of its own and is read through the module (a dotted name)
+        lines = ["import twosigma.memento as m", "import %s as cfg" % ".".join(cfg_module(c)), ""]
+        gref = "cfg.GV"
     callee_name = "callee2" if ev == "renamed" else "callee"
     if ev != "removed":
         if ev != "made-plain":
             lines.append(deco(callee_cluster, callee_ver))
-        lines += ["def %s(x):" % callee_name, "    __vtrace__(\"callee\", x)", "    return [\"callee\", x, %d, GV]" % body_const, ""]
+        lines += ["def %s(x):" % callee_name, "    __vtrace__(\"callee\", x)", "    return [\"callee\", x, %d, %s]" % (body_const, gref), ""]
     if c["nested"]:
         # an intermediate memento function between caller and callee, unchanged in itself
         lines += [deco(cl, "n1"), "def mid(x):", "    __vtrace__(\"mid\", x)",
@@ -189,6 +206,11 @@ def run_names(root, c, tag):
     return core.lifetime(body)[0]
 
 
+def list_memoized_functions_(cluster):
+    from twosigma.memento import list_memoized_functions
+    return list_memoized_functions(cluster)
+
+
 def run_evo(root, c, tag):
     def body(emit):
         world.install_seams(c["seed"])
@@ -199,8 +221,18 @@ def run_evo(root, c, tag):
         mod = importlib.import_module(".".join(c["module"]))
         _ops(mod.caller, c["cluster"], side, emit, tag, None)
         if tag == "first" and c.get("inproc"):
+            gmod = sys.modules[".".join(cfg_module(c))] if c.get("dotted_global") else mod
+            if c["evolution"] == "edited-global" and c.get("inproc_glitch"):
+                # first a look-up that meets a callee whose version cannot be computed at that moment (the variable it reads
+                # is gone for a while); its outcome is not judged
+                del gmod.GV
+                try:
+                    mod.caller.list_mementos()
+                    list_memoized_functions_(c["cluster"])
+                except BaseException:  # noqa
+                    pass
             if c["evolution"] == "edited-global":
-                mod.GV = 2
+                gmod.GV = 2
             else:
                 del mod.callee
             for name, f in (("memento", lambda: _memento_summary(mod.caller.memento(1))),
@@ -278,7 +310,7 @@ def execute(c):
         else:
             stats["evolution_cases"] = 1
             evo = c["evolution"]
-            write_module(root, c["module"], evo_program(c, 1))
+            write_program(root, c, 1)
             ev1 = run_evo(root, c, "first")
             log.append(ev1)
             for e in ev1:
@@ -307,7 +339,7 @@ def execute(c):
                             {"ref": q, "external": ext, "memento": e["ok"]})
                         break
             if not viol:
-                write_module(root, c["module"], evo_program(c, 2))
+                write_program(root, c, 2)
                 ev2 = run_evo(root, c, "second")
                 log.append(ev2)
                 modname = ".".join(c["module"])
